@@ -93,6 +93,7 @@ package netconf
 // ---- C08: the reader loop examines everything it has read, and files every complete message under its id ------------
 // bHead: ghost snapshot of the buffer at the top of the iteration. msgID: the id the loop extracts from a message.
 //@ ghost bHead []byte
+//@ ghost errsAtHeadN int
 //@ chanmode Driver.errs count
 //@ spec msgID(b []byte) int := len(reSub(netconfPatternsInstance.messageID, b)) != 2 ? 0 : (atoiOK(reSub(netconfPatternsInstance.messageID, b)[1]) ? atoiVal(reSub(netconfPatternsInstance.messageID, b)[1]) : 0)
 //@ func (*Driver).storeSubscriptionMessage [C08]
@@ -103,9 +104,11 @@ package netconf
 //@   requires d.messages != nil && d.subscriptions != nil
 //@   requires d.errs != d.Channel.Q.depthChan && d.done != d.Channel.Q.depthChan
 //@   requires (d.SelectedVersion == "1.0" || d.SelectedVersion == "1.1") && d.Channel.PromptPattern == (d.SelectedVersion == "1.1" ? netconfPatternsInstance.v1Dot1Delim : netconfPatternsInstance.v1Dot0Delim)
-//@   modifies d.Channel.Q.queue, d.Channel.Q.depth, chan(d.Channel.Q.depthChan), chan(d.errs), chan(d.done), chan(d.Channel.Errs), keys(d.messages), keys(d.subscriptions), bHead, rd, alloc()
+//@   modifies d.Channel.Q.queue, d.Channel.Q.depth, chan(d.Channel.Q.depthChan), chan(d.errs), chan(d.done), chan(d.Channel.Errs), keys(d.messages), keys(d.subscriptions), bHead, errsAtHeadN, rd, alloc()
 //@   loop 1 invariant RI(d.Channel.Q)
 //@   loop 1 set bHead = b
+//@   loop 1 set errsAtHeadN = chlen(d.errs)
+//@   at return assert [C07 C08] #the-reader-stops-only-on-the-done-signal-at-the-top-of-an-iteration chlen(d.errs) == errsAtHeadN
 //@   at call Sleep#* assert [C08 C02] #unfinished-input-is-kept !reMatch(d.Channel.PromptPattern, bHead ++ rb) ==> b == bHead ++ rb
 //@   at call Sleep#* assert [C08 C02] #a-complete-message-is-filed-under-its-id-and-the-buffer-restarts reMatch(d.Channel.PromptPattern, bHead ++ rb) && !contains(bHead ++ rb, "</rpc>") ==> len(b) == 0 && (msgID(bHead ++ rb) != 0 ==> has(d.messages, msgID(bHead ++ rb)) && get(d.messages, msgID(bHead ++ rb)) == bHead ++ rb)
 //@   at call Sleep#* assert [C08 C02] #after-an-echo-only-the-part-behind-the-first-delimiter-is-kept reMatch(d.Channel.PromptPattern, bHead ++ rb) && contains(bHead ++ rb, "</rpc>") ==> b == reSplit(d.Channel.PromptPattern, bHead ++ rb, 2)[1]
@@ -128,13 +131,20 @@ package netconf
 // (not claimed: "at most one result" - when the hello read fails with an error other than the deadline the goroutine sends
 // the error and then, not having returned, a second result nobody receives: it blocks forever. A goroutine leak on a
 // failed open, outside the twenty statements; recorded as an observation in DESIGN.md I.6)
-// the hello is parsed with regular expressions whose sub-matches are [][][]byte - deeper than the sequence encoding goes;
-// the body is not verified
-//@ func (*Driver).processServerCapabilities
-//@   noverify
+// the hello is parsed with regular expressions (uninterpreted): the clauses fix what is done with their matches. Indexing a
+// sub-match list relies on the number of groups of the pattern (one each), which is regex knowledge: `nosafety`.
+//@ func (*Driver).processServerCapabilities [C09]
+//@   nosafety
 //@   requires RI(d.Channel.Q) && d.Channel.PromptSearchDepth >= 0
 //@   ensures RI(d.Channel.Q)
 //@   modifies d.serverCapabilities, d.sessionID, rd, d.Channel.Q.queue, d.Channel.Q.depth, chan(d.Channel.Q.depthChan), quiet, alloc()
+//@   at return assert #without-a-server-hello-open-fails-with-a-netconf-error err == nil && !reMatch(ncPatterns.hello, b) ==> result != nil && isErr(result, util.ErrNetconfError)
+//@   loop 1 invariant rangeindex < len(serverCapabilitiesMatches) && len(d.serverCapabilities) == rangeindex + 1 && RI(d.Channel.Q)
+//@   loop 1 invariant #the-capabilities-are-the-first-groups-of-the-matches-in-order forall k int :: 0 <= k && k <= rangeindex ==> d.serverCapabilities[k] == serverCapabilitiesMatches[k][1]
+//@   at return assert #capabilities-are-exactly-those-of-the-hello result == nil ==> len(d.serverCapabilities) == len(serverCapabilitiesMatches) && (forall k int :: 0 <= k && k < len(serverCapabilitiesMatches) ==> d.serverCapabilities[k] == serverCapabilitiesMatches[k][1])
+//@   at return assert #the-session-id-is-the-decimal-number-of-the-hello result == nil && len(sessionIDMatch) == 2 ==> atoiOK(sessionIDMatch[1]) && (atoiVal(sessionIDMatch[1]) >= 0 ==> d.sessionID == atoiVal(sessionIDMatch[1]))
+//@   at return assert #an-unparsable-session-id-is-a-netconf-error err == nil && reMatch(ncPatterns.hello, b) && len(sessionIDMatch) == 2 && !atoiOK(sessionIDMatch[1]) ==> result != nil && isErr(result, util.ErrNetconfError)
+//@   at return assert #a-hello-without-session-id-is-fine err == nil && reMatch(ncPatterns.hello, b) && len(sessionIDMatch) != 2 ==> result == nil && d.sessionID == old(d.sessionID)
 //@ func (*Driver).Open [C08 C09]
 //@   requires RI(d.Channel.Q) && d.Channel.PromptSearchDepth >= 0 && d.Channel.Errs != d.Channel.Q.depthChan && d.errs != d.Channel.Q.depthChan && d.done != d.Channel.Q.depthChan
 //@   requires d.messages != nil && d.subscriptions != nil
